@@ -2,7 +2,7 @@
    (yamlpath/merger/enums/*.py) and the README ("yaml-merge") define them.
    Nothing here mentions the insertion buffer, positions or loops of the code. *)
 From Coq Require Import List Ascii String ZArith NArith Bool.
-From YP Require Import Outcome PyStr PyVal Doc MergeConfig.
+From YP Require Import Outcome PyStr PyVal Doc PathParser Searches MergeConfig.
 Import ListNotations.
 Open Scope string_scope.
 Open Scope list_scope.
@@ -70,3 +70,38 @@ Definition unnamed_part (rkeys : list pyval) (kvs : list (node * node)) : list (
 (* ---- arrays ---- *)
 (* ALL: "All RHS Arrays elements are appended to LHS Arrays (no deduplication)" *)
 Definition array_all (l r : list node) : list node := l ++ r.
+
+(* ---- never a crash ---- *)
+(* The only failure of a merge that is no MergeException is a configuration
+   error: some policy lookup meets a text that is no member of its
+   enumeration (from_str raises NameError). *)
+Definition mg_bad_lookup (cfg : mconfig) : Prop :=
+  exists nc, hash_merge_mode cfg nc = Raise name_error \/ array_merge_mode cfg nc = Raise name_error \/
+             aoh_merge_mode cfg nc = Raise name_error \/ set_merge_mode cfg nc = Raise name_error.
+
+(* what is assumed of the oracle ast.literal_eval: it answers, and raises only
+   what Nodes.typed_value catches *)
+Definition mg_lit_ok (lit : string -> outcome litres) : Prop :=
+  forall s, exists r, lit s = Ok r /\ match r with LCrash c => lit_crash_caught c = true | _ => True end.
+
+(* a document, a MergeException, or that configuration error -- nothing else *)
+Definition mg_clean (cfg : mconfig) {A} (o : outcome A) : Prop :=
+  match o with
+  | Ok _ => True
+  | Raise e => e = MergeExc \/ (e = name_error /\ mg_bad_lookup cfg)
+  | OutOfFuel => False
+  end.
+
+(* the computable guard: the option text in force for each enumeration and
+   every per-path rule text is a member of the enumeration *)
+Definition mg_enum_ok {A} (of_str : string -> outcome A) (cfg : mconfig) (cli ini : option string)
+           (dflt : string) : bool :=
+  is_ok (of_str (cli_or_default cli (ini_of cfg ini) dflt)) &&
+  (negb (has_config cfg) ||
+   forallb (fun r => negb (nonempty (r_val r)) || is_ok (of_str (r_val r))) (m_rules cfg)).
+
+Definition mg_cfg_valid (cfg : mconfig) : bool :=
+  mg_enum_ok hash_of_str cfg (cli_hashes cfg) (ini_hashes cfg) "DEEP" &&
+  mg_enum_ok array_of_str cfg (cli_arrays cfg) (ini_arrays cfg) "ALL" &&
+  mg_enum_ok aoh_of_str cfg (cli_aoh cfg) (ini_aoh cfg) "ALL" &&
+  mg_enum_ok set_of_str cfg (cli_sets cfg) (ini_sets cfg) "UNIQUE".
